@@ -106,6 +106,18 @@ def concLine (st : ConcRun) (lineNo : Nat) (line : String) : Except String (Conc
          then [s!"PROPFAIL C09 cond_never_returns_held_version {tag} calls={get "calls"}"] else []) ++
         (if (get "unsynced").toNat?.getD 0 == 0 then [] else
           [s!"PROPFAIL C06 synced_before_return {tag} unsynced={get "unsynced"} (a call returned before a Sync that began after its record was written had completed)"]) ++
+        -- every call puts the very same bytes under the same name: whatever the schedule, they are all
+        -- told the same version number (the first stores it, the others find it the newest)
+        (match calls.head? with
+         | some c0 =>
+           (match c0.op with
+            | .put n0 v0 =>
+              -- (a call whose save failed reports an error and stores nothing: only the successful ones count)
+              let oks := calls.filter fun c => match c.res with | .version _ => true | _ => false
+              if calls.all (fun c => c.op == Op.put n0 v0) && !(oks.all fun c => some c.res == oks.head?.map (·.res)) then
+                [s!"PROPFAIL C02 put {tag} identical puts were given different version numbers: calls={get "calls"}"] else []
+            | _ => [])
+         | none => []) ++
         -- a caller without a grant, making the same requests at the same time, is refused every time
         (if (get "intruder_leaks").toNat?.getD 0 == 0 then [] else
           [s!"PROPFAIL C01 denied_noeffect {tag} intruder_leaks={get "intruder_leaks"} (a caller with no grant on the names in play was answered with something other than access-denied while others made the same requests)"]) ++
@@ -126,7 +138,14 @@ def concLine (st : ConcRun) (lineNo : Nat) (line : String) : Except String (Conc
       let overlap := calls.any fun a => calls.any fun b => a.thread != b.thread && a.inv < b.ret && b.inv < a.ret
       let key := s!"conc:{get "via"}:t{nthreads}:c{min calls.length 30 / 5 * 5}:{if overlap then "overlap" else "serial"}"
       .ok ({ st with cases := st.cases + 1, fails := st.fails + outs.length, nodes := st.nodes + nodes, cover := bump st.cover key }, outs)
-    | _, _ => .error s!"line {lineNo}: cannot parse conc line"
+    | _, _ =>
+      -- the database file (read with the documented schema-v1 layout) or a result is unreadable: an observation
+      if (get "seed").startsWith "ERR" || (get "final").startsWith "ERR" then
+        .ok ({ st with cases := st.cases + 1, fails := st.fails + 3 },
+             [s!"PROPFAIL C03 disk_readable line={lineNo} the database file does not read in the documented layout: seed={(get "seed").take 120} final={(get "final").take 120}",
+              s!"PROPFAIL C04 disk_readable line={lineNo} seed={(get "seed").take 120} final={(get "final").take 120}",
+              s!"PROPFAIL C14 final_state_readable line={lineNo} final={(get "final").take 120}"])
+      else .error s!"line {lineNo}: cannot parse conc line"
   | _ => if line.startsWith "#" || line.isEmpty then .ok (st, []) else .error s!"line {lineNo}: unknown line kind"
 
 end Setec.Driver
